@@ -101,6 +101,7 @@ type nodeState struct {
 	hasFsmVal   bool
 	snapLabels  map[uint64]*ev.Rec // snapshot index -> snapmeta record
 	termBefore  uint64
+	snapTouched bool // restore / install / compaction happened in this incarnation
 	leaderKnown uint64
 }
 
@@ -625,6 +626,7 @@ func (a *Analyzer) onOpen(n *nodeState, r *ev.Rec) {
 	n.pendingDemote = 0
 	n.rounds = map[uint64]bool{}
 	n.serving = false
+	n.snapTouched = st.Snap > 0
 	a.checkTerm(n, st.Term, r.Q, "open")
 	// ledger sightings (C04) and config entries
 	for i := range r.Log {
@@ -832,6 +834,7 @@ func (a *Analyzer) onClear(n *nodeState, r *ev.Rec) {
 		return
 	}
 	a.stat("log-resets")
+	n.snapTouched = true
 	a.shape(fmt.Sprintf("clear:%d", n.key.nid))
 	cm := a.committed[n.key.cid]
 	for idx, e := range n.log {
@@ -856,6 +859,7 @@ func (a *Analyzer) onCompact(n *nodeState, r *ev.Rec) {
 		return
 	}
 	a.stat("compactions")
+	n.snapTouched = true
 	a.shape(fmt.Sprintf("compact:%d", n.key.nid))
 	if r.St != nil && r.Idx > r.St.Snap {
 		a.find("C09", "compaction-beyond-snapshot", "", r.Q, "%s compacts its log up to %d but its snapshot covers only %d", n.key, r.Idx, r.St.Snap)
